@@ -605,10 +605,11 @@ def gen_reader(dbmap_path, outp, tier):
         if "studio-attrs" in extras:
             attrs = ' xmlns:xmime="http://www.w3.org/2005/05/xmlmime" xmlns:xsi="http://www.w3.org/2001/XMLSchema-instance" xsi:noNamespaceSchemaLocation="http://www.roblox.com/roblox.xsd" version="4"'
         doc = "<roblox%s>%s%s%s%s</roblox>" % (attrs, head, mid, tail, nl[:1])
-        if "declaration" in extras:
-            doc = '<?xml version="1.0" encoding="utf-8"?>\n' + doc
+        # (an XML declaration is only legal at the very start: white space goes after it)
         if "leading-ws" in extras:
             doc = "\n  " + doc + "\n\n"
+        if "declaration" in extras:
+            doc = '<?xml version="1.0" encoding="utf-8"?>\n' + doc
         return doc, mode
 
     def expected_of(dom):
@@ -688,6 +689,48 @@ def gen_reader(dbmap_path, outp, tier):
             for w in (False, True, "\r\n", "\n\t\t", "\n    ", " "):
                 doc, mode = render(dom, base_refs, None, "newline", set(), sf, w)
                 emit(doc, exp, "sharedstrings-position/base64-wrapping", mode)
+
+    # two degrees of freedom at a time: the full product of the values of every pair of
+    # dimensions, the others at their base value (thorough: every subset of the optional
+    # elements x indentation x SharedStrings position)
+    all_extras = ("meta-first", "meta-last", "external-first", "external-last", "studio-attrs", "declaration", "leading-ws", "props-after-children", "comments")
+    for dom in doms:
+        n = len(dom[2])
+        exp = expected_of(dom)
+        maxp = max(len(x["props"]) for x in dom[2])
+        if maxp <= 4:
+            perms = [None] + [(lambda m, perm=perm: [x for x in perm if x < m]) for perm in itertools.permutations(range(maxp))]
+        else:
+            perms = [None] + rotations(min(maxp, 6)) + [lambda m: list(range(m))[::-1]]
+        dims = {
+            "refs": list(ref_namings(n).values()),
+            "perm": perms,
+            "indent": ["newline", "none", "tabs", "spaces"],
+            "extras": [set()] + [{e} for e in all_extras],
+            "sstr": [False, True],
+            "wrap": [False, True, "\r\n", "\n\t\t", "\n    ", " "],
+        }
+        names = list(dims)
+        for ai in range(len(names)):
+            for bi in range(ai + 1, len(names)):
+                a, b = names[ai], names[bi]
+                for va in dims[a][1:]:
+                    for vb in dims[b][1:]:
+                        cur = {k: v[0] for k, v in dims.items()}
+                        cur[a], cur[b] = va, vb
+                        doc, mode = render(dom, cur["refs"], cur["perm"], cur["indent"], cur["extras"], cur["sstr"], cur["wrap"])
+                        emit(doc, exp, "pair:%s*%s" % (a, b), mode)
+        for e1 in range(len(all_extras)):
+            for e2 in range(e1 + 1, len(all_extras)):
+                doc, mode = render(dom, dims["refs"][0], None, "newline", {all_extras[e1], all_extras[e2]}, False, False)
+                emit(doc, exp, "pair:extras*extras", mode)
+        if tier == "thorough":
+            for mask in range(1 << len(all_extras)):
+                ex = {all_extras[i] for i in range(len(all_extras)) if mask >> i & 1}
+                for indent in dims["indent"]:
+                    for sf in (False, True):
+                        doc, mode = render(dom, dims["refs"][mask % 4], perms[mask % len(perms)], indent, ex, sf, dims["wrap"][mask % 6])
+                        emit(doc, exp, "product:extras-subsets", mode)
 
     # float spellings, one property at a time, in every float-carrying position
     for text, val in float_spellings():
